@@ -194,7 +194,8 @@ def correspondence(ctx):
     for t in range(ctx.scale(len(pc.REDEF_EDITS), 5 * len(pc.REDEF_EDITS))):
         c, bad = pc.redefinition_check(rng, t, lambda p: pc.quiet(p.calc_kM, silent=True).toarray())
         ctx.evaluations += 1
-        if bad and ctx.violation('C04 fails on the implementation: calc_kM ' + bad, dict(case=c, derived='redefinition')):
+        ident = 'C04-kM-zero-after-plyts-reset' if c.get('identity') == 'no-rebuild-after-plyts-reset' else None
+        if bad and ctx.violation('C04 fails on the implementation: calc_kM ' + bad, dict(case=c, derived='redefinition'), identity=ident):
             return
     ctx.cov['input_distribution'] = dist
     ctx.cov['translated_kernels'] = ['%s.%s' % (m, k) for m in ir for k in KERNELS]
